@@ -139,9 +139,9 @@ theorem doneStep_frameE {s s' : Sys} {w : Nat} (hs : doneStep s w = some s') :
   cases hw : s.workers w <;> simp only [hw] at hs <;> cases hs
   exact ⟨rfl, rfl, rfl, rfl⟩
 
-theorem mainStep_invE {s s' : Sys} {perm : List Name} (h : InvE inp s) (hC : InvC s) (hF : InvF s)
+theorem mainStep_invE {s s' : Sys} {perm : List Name} (h : InvE9 inp s) (hC : InvC s) (hF : InvF s)
     (hH : s.halt ≠ .none → s.rpc = .fin ∨ s.rpc = .halted)
-    (hP : InvP inp s) (h1 : Inv1 inp s) (hs : mainStep inp s perm = some s') : InvE inp s' := by
+    (hP : InvP inp s) (h1 : Inv1 inp s) (hs : mainStep inp s perm = some s') : InvE9 inp s' := by
   unfold mainStep at hs
   cases hr : s.rpc with
   | gEntry completed ret =>
@@ -179,7 +179,7 @@ theorem mainStep_invE {s s' : Sys} {perm : List Name} (h : InvE inp s) (hC : Inv
           have hdn : n ∈ s.dispatched := hC.ds n hsu
           have key : ∀ (d : Sel) (hd : d ≠ .assertFail) (s2 : Sys), s2.nodes = (applySel inp s n nd d).nodes →
               s2.waiting = (applySel inp s n nd d).waiting → s2.dispatched = (applySel inp s n nd d).dispatched →
-              s2.susp = (applySel inp s n nd d).susp → InvE inp s2 := by
+              s2.susp = (applySel inp s n nd d).susp → InvE9 inp s2 := by
             intro d hd s2 e1 e2 e3 e4
             obtain ⟨_, f2, _, f4, _⟩ := applySel_frame inp s n nd d
             exact invE_status (selStatus d) h hn hdn (e1.trans (applySel_nodes inp s n nd d hd)) (e2.trans f2)
@@ -228,9 +228,9 @@ theorem mainStep_invE {s s' : Sys} {perm : List Name} (h : InvE inp s) (hC : Inv
   | sExec a => simp only [hr] at hs; cases hs
   | halted => simp only [hr] at hs; cases hs
 
-theorem preach_invE {s : Sys} (h : PReach inp s) : InvE inp s := by
+theorem preach_invE {s : Sys} (h : PReach inp s) : InvE9 inp s := by
   induction h with
-  | init => exact init_invE inp
+  | init => exact init_invE9 inp
   | @next s0 s1 c hp hs ih =>
     cases c with
     | main perm =>
